@@ -679,6 +679,16 @@ fn body(ctx: &Ctx) -> (Summary, Meta) {
         for a in &sp {
             jobs.push(Job { ax: a.clone(), kind: Kind::Spline, f32, center: 0.0 });
         }
+        // long axes with a fine spacing (the product of the solver's pivots leaves the float range):
+        // 200 / 400 knots 2^-8 apart (f64), 64 / 100 knots 2^-5 apart (f32 too)
+        for (n, h, both) in [(200usize, 2.0f64.powi(-8), false), (400, 2.0f64.powi(-8), false), (64, 2.0f64.powi(-5), true), (100, 2.0f64.powi(-5), true)] {
+            if f32 && !both {
+                continue;
+            }
+            let mut w = vec![h; n - 1];
+            w[n / 2] = 2.0 * h;
+            jobs.push(Job { ax: alpha::axis_from_word("fine", -0.25, &w), kind: Kind::Spline, f32, center: 0.0 });
+        }
         // nearly even axes: spacing 1/2 with a jitter of 2^-32 (only polynomials whose samples are exact
         // take part: straight lines)
         let jit = 2.0f64.powi(-32);
@@ -738,7 +748,7 @@ fn body(ctx: &Ctx) -> (Summary, Meta) {
         out
     }));
     let meta = Meta {
-        rule: "all 256 polynomials with coefficients in {-1,0,1/2,2} of degree <= 3; per axis ONE Individual build whose lanes are every (polynomial, left condition, right condition) with conditions the polynomial satisfies (NotAKnot for n>=4, FirstDeriv(p'), SecondDeriv(p''), Natural iff p''=0, Clamped iff p'=0; n=3: one NotAKnot end + a derivative end, both NotAKnot for degree<=2) - so every lane has its own boundary pair and values - plus the whole-data-set NotAKnot default, row-level NotAKnot and Natural-for-lines builds; affine functions for Linear; all 256 forms a+bx+cy+dxy for Bilinear; queries: in-range grid (4 per interval) and 4 extrapolated ones. Per interval one cubic with equal values and equal slopes at both ends of that interval; nearly even axes (1/2 +- 2^-32, straight lines). Spline jobs also on axes 3*2^20 away from the origin with spacings 1.5 / 3 / 6 (polynomials in x - x0), and with a first lane whose values are near 2^41. Oracle: exact polynomial value. Non-trivial = degree >= 2 (spline), degree 1 (Linear), d != 0 (Bilinear). Phase integer-element-types (i32, i64 incl. constant terms 2^30+1 / 2^60+1; u32, u64 on non-negative data rising along both axes, in-range queries): every interval word over {1,2,3} (1..3 (4) intervals, 2 offsets), Linear on a + b x (25 coefficient pairs) and Bilinear on all 256 forms with coefficients in {-1,0,1,2}, extrapolation on, every integer query from 3 (2) below to 3 (2) above the range; all divisions are exact there, slack 1 unit.".into(),
+        rule: "all 256 polynomials with coefficients in {-1,0,1/2,2} of degree <= 3; per axis ONE Individual build whose lanes are every (polynomial, left condition, right condition) with conditions the polynomial satisfies (NotAKnot for n>=4, FirstDeriv(p'), SecondDeriv(p''), Natural iff p''=0, Clamped iff p'=0; n=3: one NotAKnot end + a derivative end, both NotAKnot for degree<=2) - so every lane has its own boundary pair and values - plus the whole-data-set NotAKnot default, row-level NotAKnot and Natural-for-lines builds; affine functions for Linear; all 256 forms a+bx+cy+dxy for Bilinear; queries: in-range grid (4 per interval) and 4 extrapolated ones. Per interval one cubic with equal values and equal slopes at both ends of that interval; nearly even axes (1/2 +- 2^-32, straight lines); long fine axes (64 .. 400 knots, spacing 2^-5 / 2^-8). Spline jobs also on axes 3*2^20 away from the origin with spacings 1.5 / 3 / 6 (polynomials in x - x0), and with a first lane whose values are near 2^41. Oracle: exact polynomial value. Non-trivial = degree >= 2 (spline), degree 1 (Linear), d != 0 (Bilinear). Phase integer-element-types (i32, i64 incl. constant terms 2^30+1 / 2^60+1; u32, u64 on non-negative data rising along both axes, in-range queries): every interval word over {1,2,3} (1..3 (4) intervals, 2 offsets), Linear on a + b x (25 coefficient pairs) and Bilinear on all 256 forms with coefficients in {-1,0,1,2}, extrapolation on, every integer query from 3 (2) below to 3 (2) above the range; all divisions are exact there, slack 1 unit.".into(),
         bounds: format!("{njobs} (type, axis/grid, strategy) jobs; tier {}", ctx.tier.name()),
         assumptions: vec!["tolerance K eps scale inside, 16 K eps scale |t|^3 outside, with scale = max(|y_i|, |h_i p'(x_i)|, |p(q)|)".into()],
         extra: vec![],
